@@ -136,8 +136,11 @@ Definition s_gev (p : N * gev) : sexp :=
   | GQueue e d => L [A (fst p); A 0; s_entry e; s_dest d]
   | GFlush d es => L [A (fst p); A 1; s_dest d; slist s_entry es]
   | GSend es d _ _ => L [A (fst p); A 2; slist s_entry es; s_dest d]
+  | _ => L []
   end.
-Definition s_glog (w : world) : sexp := slist s_gev (rev (glog w)).
+(* the TimedStore part of the history (GRefresh / GExpire) is not compared with the implementation's call history *)
+Definition s_glog (w : world) : sexp :=
+  slist s_gev (filter (fun p => match snd p with GRefresh _ _ _ _ | GExpire _ _ _ => false | _ => true end) (rev (glog w))).
 
 Definition run_op (arg : sexp) : option sexp :=
   let? sc := d_scenario arg in
